@@ -4666,6 +4666,7 @@ func (a *Agent) TaskDispatch(RequestID uint32, CommandID uint32, Parser *parser.
 					} else {
 						Output["Type"] = typeError
 						Output["Message"] = "Failed to list existing tokens"
+						a.RequestCompleted(RequestID)
 					}
 				} else {
 					logger.Debug(fmt.Sprintf("Agent: %x, Command: COMMAND_TOKEN - DEMON_COMMAND_TOKEN_FIND_TOKENS, Invalid packet", AgentID))
@@ -5683,6 +5684,8 @@ func (a *Agent) TaskDispatch(RequestID uint32, CommandID uint32, Parser *parser.
 					LclString = common.Int32ToIpString(int64(LclAddr))
 					FwdString = common.Int32ToIpString(int64(FwdAddr))
 
+					a.RequestCompleted(RequestID)
+
 					if Success == win32.TRUE {
 						a.Console(teamserver.AgentConsole, "Info", fmt.Sprintf("Started reverse port forward on %s:%d to %s:%d [Id: %x]", LclString, LclPort, FwdString, FwdPort, SocktID), "")
 						return
@@ -6359,6 +6362,7 @@ func (a *Agent) TaskDispatch(RequestID uint32, CommandID uint32, Parser *parser.
 							"Type":    "Erro",
 							"Message": "Failed to list all kerberos tickets",
 						}
+						a.RequestCompleted(RequestID)
 					}
 				} else {
 					logger.Debug(fmt.Sprintf("Agent: %x, Command: COMMAND_KERBEROS  - KERBEROS_COMMAND_KLIST, Invalid packet", AgentID))
